@@ -2,6 +2,8 @@
 """Evaluate every kept seeded change against the registered quick checks, in parallel.
 
 usage: tools/eval_all.py <out_dir> <seeded_dir> [<seeded_dir> ...]      (a seeded_dir holds patch.diff)
+       tools/eval_all.py <out_dir> --queue FILE     (FILE lists seeded_dirs, may grow while running, ends with a line END)
+       EVAL_SLOTS=1,2,3,4 selects the clones / worktrees to use
 
 Uses the clones /tmp/vpar/{1,2,3} of /verif (brought to the committed HEAD of /verif first) and the scratch worktrees
 /tmp/wt/eval{1,2,3} of /repo: the patch is applied to the worktree, every quick_cmd of MANIFEST.json runs in the clone
@@ -9,10 +11,11 @@ with NASIM_REPO pointing at it, the worktree is restored.  Neither /repo nor /ve
 """
 import sys, os, subprocess, json, threading, queue, time
 out_dir = sys.argv[1]
-dirs = [os.path.abspath(d) for d in sys.argv[2:]]
+qfile = sys.argv[3] if len(sys.argv) > 3 and sys.argv[2] == "--queue" else None
+dirs = [] if qfile else [os.path.abspath(d) for d in sys.argv[2:]]
 os.makedirs(out_dir, exist_ok=True)
 slots = queue.Queue()
-for k in (1, 2, 3):
+for k in [int(x) for x in os.environ.get("EVAL_SLOTS", "1,2,3").split(",")]:
     subprocess.run(["git", "-C", f"/tmp/vpar/{k}", "fetch", "-q", "origin"], check=True)
     subprocess.run(["git", "-C", f"/tmp/vpar/{k}", "reset", "-q", "--hard", "origin/main"], check=True)
     subprocess.run(["git", "-C", f"/tmp/wt/eval{k}", "checkout", "-q", "--", "."], check=True)
@@ -59,8 +62,25 @@ def work(d):
 
 
 ths = []
-for d in dirs:
-    th = threading.Thread(target=work, args=(d,)); th.start(); ths.append(th)
-    time.sleep(0.3)
+if qfile:
+    seen = 0
+    while True:
+        lines = [l.strip() for l in open(qfile) if l.strip()]
+        stop = False
+        while seen < len(lines):
+            d = lines[seen]; seen += 1
+            if d == "END":
+                stop = True
+                break
+            k = slots.get(); slots.put(k)          # wait for a free slot so that the queue order is the start order
+            th = threading.Thread(target=work, args=(os.path.abspath(d),)); th.start(); ths.append(th)
+            time.sleep(1.0)
+        if stop:
+            break
+        time.sleep(5)
+else:
+    for d in dirs:
+        th = threading.Thread(target=work, args=(d,)); th.start(); ths.append(th)
+        time.sleep(0.3)
 for th in ths:
     th.join()
